@@ -983,6 +983,22 @@ func (sa *Application) unReserveInternal(reserve *reservation) int {
 	return 0
 }
 
+// RemoveReservations removes all reservations of the application from the nodes, the application and its queue.
+// Returns the number of reservations removed. Used when a terminated application leaves the partition: its asks
+// are dropped by the state change without looking at the reservations.
+func (sa *Application) RemoveReservations() int {
+	sa.Lock()
+	defer sa.Unlock()
+	var removed int
+	for _, reserve := range sa.reservations {
+		removed += sa.unReserveInternal(reserve)
+	}
+	if removed > 0 && sa.queue != nil {
+		sa.queue.UnReserve(sa.ApplicationID, removed)
+	}
+	return removed
+}
+
 // canAllocationReserve Check if the allocation has already been reserved. An alloc can never reserve more than one node.
 // No locking must be called while holding the lock
 func (sa *Application) canAllocationReserve(alloc *Allocation) error {
